@@ -234,4 +234,101 @@ THEOREM Monotone == ASpec => [][Stable]_avars
 <1> QED
   BY <1>1, PTL DEF ASpec
 
+
+(* ---------------------------------------------------------------------------------------- *)
+(* C07 / C12 without bounds: a call that reports an error creates no key object and issues   *)
+(* no signature, and randomness is requested only through the fallible interface, at most    *)
+(* once per call (twice for the constant-time test entry point).                             *)
+ErrStep == (out'.op \in {"Sign", "KeyGenRng", "Dudect"} /\ ~out'.ok) => (keys' = keys /\ issued' = issued)
+THEOREM ErrorCreatesNothingU == ASpec => [][ErrStep]_avars
+<1>1. ASSUME [ANext]_avars PROVE [ErrStep]_avars
+  <2>1. ASSUME NEW h, NEW msg, NEW ctx, NEW ctxlen, NEW mode, NEW mp, NEW draw, NEW fault, NEW sig, Sign(h, msg, ctx, ctxlen, mode, mp, draw, fault, sig) PROVE ErrStep
+    <3>1. CASE ctxlen > 255
+      BY <2>1, <3>1 DEF Sign, ErrStep
+    <3>2. CASE ~(ctxlen > 255) /\ fault # "none"
+      BY <2>1, <3>2 DEF Sign, ErrStep
+    <3>3. CASE ~(ctxlen > 255) /\ fault = "none"
+      BY <2>1, <3>3 DEF Sign, ErrStep
+    <3> QED BY <3>1, <3>2, <3>3
+  <2>2. ASSUME NEW set, NEW draw, NEW fault, NEW hpk, NEW hsk, KeyGenRng(set, draw, fault, hpk, hsk) PROVE ErrStep
+    <3>1. CASE fault = "none"
+      BY <2>2, <3>1 DEF KeyGenRng, ErrStep
+    <3>2. CASE fault # "none"
+      BY <2>2, <3>2 DEF KeyGenRng, ErrStep
+    <3> QED BY <3>1, <3>2
+  <2>3. ASSUME NEW fault, NEW at, Dudect(fault, at) PROVE ErrStep
+    BY <2>3 DEF Dudect, ErrStep
+  <2>4. CASE UNCHANGED avars
+    BY <2>4 DEF avars, ErrStep
+  <2>5. ASSUME NEW set, NEW seed, NEW hpk, NEW hsk, KeyGenSeed(set, seed, hpk, hsk) PROVE ErrStep
+    BY <2>5 DEF KeyGenSeed, ErrStep
+  <2>6. ASSUME NEW h, NEW mp, NEW draw, NEW sig, SignInternal(h, mp, draw, sig) PROVE ErrStep
+    BY <2>6 DEF SignInternal, ErrStep
+  <2>7. ASSUME NEW h, NEW msg, NEW ctx, NEW ctxlen, NEW mode, NEW mp, NEW sig, Verify(h, msg, ctx, ctxlen, mode, mp, sig) PROVE ErrStep
+    BY <2>7 DEF Verify, ErrStep
+  <2>8. ASSUME NEW h, NEW mp, NEW sig, VerifyInternal(h, mp, sig) PROVE ErrStep
+    BY <2>8 DEF VerifyInternal, ErrStep
+  <2>9. ASSUME NEW h, NEW bytes, Serialise(h, bytes) PROVE ErrStep
+    BY <2>9 DEF Serialise, ErrStep
+  <2>10. ASSUME NEW kind, NEW set, NEW bytes, NEW accept, NEW h, Deserialise(kind, set, bytes, accept, h) PROVE ErrStep
+    BY <2>10 DEF Deserialise, ErrStep
+  <2>11. ASSUME NEW hsk, NEW hpk, Derive(hsk, hpk) PROVE ErrStep
+    BY <2>11 DEF Derive, ErrStep
+  <2>12. ASSUME NEW h, NEW h2, Clone(h, h2) PROVE ErrStep
+    BY <2>12 DEF Clone, ErrStep
+  <2>13. ASSUME NEW h, Drop(h) PROVE ErrStep
+    BY <2>13 DEF Drop, ErrStep
+  <2> QED
+    BY <1>1, <2>1, <2>2, <2>3, <2>4, <2>5, <2>6, <2>7, <2>8, <2>9, <2>10, <2>11, <2>12, <2>13 DEF ANext
+<1> QED
+  BY <1>1, PTL DEF ASpec
+
+RngInv == out.op \in {"Sign", "KeyGenRng", "Dudect"} => out.rnglog \in {NoDraw, OneDraw, TwoDraws}
+THEOREM RngDisciplineU == ASpec => []RngInv
+<1>1. AInit => RngInv
+  BY DEF AInit, RngInv
+<1>2. RngInv /\ [ANext]_avars => RngInv'
+  <2> SUFFICES ASSUME RngInv, [ANext]_avars PROVE RngInv'
+    OBVIOUS
+  <2>1. ASSUME NEW h, NEW msg, NEW ctx, NEW ctxlen, NEW mode, NEW mp, NEW draw, NEW fault, NEW sig, Sign(h, msg, ctx, ctxlen, mode, mp, draw, fault, sig) PROVE RngInv'
+    <3>1. CASE ctxlen > 255
+      BY <2>1, <3>1 DEF Sign, RngInv
+    <3>2. CASE ~(ctxlen > 255) /\ fault # "none"
+      BY <2>1, <3>2 DEF Sign, RngInv
+    <3>3. CASE ~(ctxlen > 255) /\ fault = "none"
+      BY <2>1, <3>3 DEF Sign, RngInv
+    <3> QED BY <3>1, <3>2, <3>3
+  <2>2. ASSUME NEW set, NEW draw, NEW fault, NEW hpk, NEW hsk, KeyGenRng(set, draw, fault, hpk, hsk) PROVE RngInv'
+    <3>1. CASE fault = "none"
+      BY <2>2, <3>1 DEF KeyGenRng, RngInv
+    <3>2. CASE fault # "none"
+      BY <2>2, <3>2 DEF KeyGenRng, RngInv
+    <3> QED BY <3>1, <3>2
+  <2>3. ASSUME NEW fault, NEW at, Dudect(fault, at) PROVE RngInv'
+    BY <2>3 DEF Dudect, RngInv
+  <2>4. CASE UNCHANGED avars
+    BY <2>4 DEF avars, RngInv
+  <2>5. ASSUME NEW set, NEW seed, NEW hpk, NEW hsk, KeyGenSeed(set, seed, hpk, hsk) PROVE RngInv'
+    BY <2>5 DEF KeyGenSeed, RngInv
+  <2>6. ASSUME NEW h, NEW mp, NEW draw, NEW sig, SignInternal(h, mp, draw, sig) PROVE RngInv'
+    BY <2>6 DEF SignInternal, RngInv
+  <2>7. ASSUME NEW h, NEW msg, NEW ctx, NEW ctxlen, NEW mode, NEW mp, NEW sig, Verify(h, msg, ctx, ctxlen, mode, mp, sig) PROVE RngInv'
+    BY <2>7 DEF Verify, RngInv
+  <2>8. ASSUME NEW h, NEW mp, NEW sig, VerifyInternal(h, mp, sig) PROVE RngInv'
+    BY <2>8 DEF VerifyInternal, RngInv
+  <2>9. ASSUME NEW h, NEW bytes, Serialise(h, bytes) PROVE RngInv'
+    BY <2>9 DEF Serialise, RngInv
+  <2>10. ASSUME NEW kind, NEW set, NEW bytes, NEW accept, NEW h, Deserialise(kind, set, bytes, accept, h) PROVE RngInv'
+    BY <2>10 DEF Deserialise, RngInv
+  <2>11. ASSUME NEW hsk, NEW hpk, Derive(hsk, hpk) PROVE RngInv'
+    BY <2>11 DEF Derive, RngInv
+  <2>12. ASSUME NEW h, NEW h2, Clone(h, h2) PROVE RngInv'
+    BY <2>12 DEF Clone, RngInv
+  <2>13. ASSUME NEW h, Drop(h) PROVE RngInv'
+    BY <2>13 DEF Drop, RngInv
+  <2> QED
+    BY <2>1, <2>2, <2>3, <2>4, <2>5, <2>6, <2>7, <2>8, <2>9, <2>10, <2>11, <2>12, <2>13 DEF ANext
+<1> QED
+  BY <1>1, <1>2, PTL DEF ASpec
+
 =============================================================================
